@@ -142,11 +142,15 @@ func intervalOverlaps(lims []*limit) []overlap {
 			if l.typ == start {
 				endLeaf = endLeaf.Prev()
 			}
-			overlaps = append(overlaps, overlap{
-				indices: openIndices(),
-				start:   lastStart,
-				end:     endLeaf,
-			})
+			// The interval is empty when the previous limit was an end at leaf
+			// L and this one is a start at L+1: nothing lies between them.
+			if lastStart <= endLeaf {
+				overlaps = append(overlaps, overlap{
+					indices: openIndices(),
+					start:   lastStart,
+					end:     endLeaf,
+				})
+			}
 		}
 
 		switch l.typ {
